@@ -211,6 +211,9 @@ def _vm_goal(case, out):
             ["(%s, %s)" % tuple(_vm_str(x) for x in e.split(":")) for e in p[1].split(",")], "(str * str)")
         exp = _vm_list([] if o[0] == "_" else [_vm_str(x) for x in o[0].split(",")], "str")
         return "list_tags %s %s = %s" % (ents, _vm_str(p[2]), exp)
+    if k == "CA":
+        cfg, loop, _ = _vm_client(p[1:])
+        return "collect_all %s = (%s, %s)" % (loop, o[3], _vm_items(o[1]))
     if k == "CS":
         sch, hst = p[1], p[2]
         kd, n, limit, at, last, cbf, path, q, nresp = p[3:12]
@@ -282,7 +285,7 @@ def _c15_vm_sample(d, tier, coq, build, want=300):
             outs[i] = o
     # a spread over the case kinds, small cases preferred (the term is type-checked too)
     quota = {"C": 80, "W": 60, "S": 45, "L": 10, "F": 6, "FR": 6, "Z": 6, "O": 10, "X": 10, "P": 8,
-             "U": 40, "U0": 10, "QS": 15, "QE": 10, "RR": 40, "CS": 40, "J": 30, "RB": 30, "XB": 10}
+             "U": 40, "U0": 10, "QS": 15, "QE": 10, "RR": 40, "CS": 40, "J": 30, "RB": 30, "XB": 10, "CA": 30}
     got = collections.Counter()
     stride = collections.Counter()
     total = collections.Counter()
